@@ -2,7 +2,7 @@
 from ..facts import AnchorMissing, callee_def, op_place, op_const, is_bare
 from ..util import (SUBR, RTRAIT, ends, field_accesses, site, fn_key, callee_method, require,
                     edge_is_true, src_field, has_call, has_field, final_uses, field_reads,
-                    edges_where, unreachable_without_edges, origin)
+                    edges_where, unreachable_without_edges, origin, agg_operand_index)
 
 EXPLANATION = (
     "Static decision of three clauses: (A) the width==0 test of render_with_context dominates every "
@@ -37,6 +37,11 @@ def check(ctx):
     ctx.rule("C11-E", "width_minus returns max(width − prefix, min_width) whether or not overflow is allowed: the option only "
              "removes the error, it does not change the width a block gets when the rendering succeeds anyway")
     ctx.guard("C11-E", _w.rule_width_minus_def, "C11-E")
+    ctx.rule("C11-F", "'with overflow allowed every document renders' includes 'does not panic': C01-A restricted to the line and "
+             "wrapping code (src/render/text_renderer.rs), where an overflowing line can be wider than the width it is "
+             "measured against — every panic-capable operation there is discharged")
+    from . import C01
+    ctx.guard("C11-F", C01.rule_a, "C11-F", lambda b: b.span.startswith("src/render/text_renderer.rs"))
 
 
 def rule_a_as(ctx, rid):
@@ -238,6 +243,13 @@ def rule_c(ctx):
                 continue  # derived Clone/Debug/PartialEq
             s = site(b, bb, where)
             key = "%s.%s@%s" % (owner.split("::")[-1], name, fn_key(b))
+            oi = agg_operand_index(st, owner, name)
+            if oi is not None:
+                rv = st["rv"]
+                fld = rv["fields"][oi] if oi < len(rv.get("fields", [])) else "?"
+                ctx.check(fld in ("allow_width_overflow", "allow_overflow"), "C11-C",
+                          key + ":plumbing→%s.%s" % (str(rv.get("adt")).split("::")[-1], fld), s, b.id, "flag copied into a differently named field")
+                continue
             if dest is None:
                 ctx.violation("C11-C", key + ":opaque-read", s, b.id, "flag read in a form the rule cannot follow (%s)" % acc)
                 continue
